@@ -508,7 +508,7 @@ static void agc_case(vh::Rng& r, const AP& p, double amp, bool cplx, AgcStats& s
 int main(int argc, char** argv) {
     vh::Args a(argc, argv);
     vh::install_guards();
-    vh::Rng rng(a.seed * 0x9e3779b97f4a7c15ULL + 20);
+    vh::Rng rng(a.seed * 1000003ULL + 20);   // (not a multiple of the splitmix increment: streams of different seeds do not overlap)
     vh::watch(a.thorough ? 3000 : 600);
     const bool th = a.thorough;
 
@@ -748,6 +748,17 @@ int main(int argc, char** argv) {
         out.stat("agc_cases_capped", st.capped);
         out.stat("agc_worst_level_err_ppm", (long long)(st.worst_level_err * 1e6L));
         out.stat("agc_worst_gain_over_max_e15_minus1", (long long)((st.worst_gain_ratio - 1) * 1e15L));
+    }
+
+    // informative probe, NOT part of the oracle (outside the stated quantifier 0..4 s only by the sign bit):
+    // a time of -0.0 passes the constructors' `>= 0` guards, sample_rate * -0.0 = -0.0, -log 9 / -0.0 = +inf,
+    // exp(+inf) = inf: the coefficient is inf and every output is NaN.  (The model's `coef` returns 0 there.)
+    {
+        Limiter l(44100, -10.0, 0.0, -0.0, 0.2);
+        arr_real x(3);
+        x[0] = 0.5; x[1] = 1.0; x[2] = 0.1;
+        auto r = l.process(x);
+        out.stat("probe_negative_zero_attack_gives_nan", std::isnan(r.out[0]) ? 1 : 0);
     }
 
     vh::unwatch();
